@@ -352,7 +352,7 @@ func (s *Spec) Step(ctx context.Context, st *State, pending interface{}, c *Cont
 		// (or moving back to the richer type system).
 		bs, _ = bs.Copy().Extendm("error", "Action node followed no branch",
 			"lastNode", givenState.NodeName,
-			"lastBindings", givenState.Bs.Copy())
+			"lastBindings", map[string]interface{}(givenState.Bs.Copy()))
 		stride.To = &State{
 			NodeName: "error",
 			Bs:       bs,
@@ -667,7 +667,7 @@ func (s *Spec) Walk(ctx context.Context, st *State, pendings []interface{}, c *C
 			} else {
 				errorBs, _ := st.Bs.Copy().Extendm("error", err.Error(),
 					"lastNode", st.NodeName,
-					"lastBindings", st.Bs.Copy())
+					"lastBindings", map[string]interface{}(st.Bs.Copy()))
 				stride.To = &State{
 					NodeName: "error",
 					Bs:       errorBs,
